@@ -19,10 +19,13 @@ from xml.etree import ElementTree as ET
 
 import core
 import corr_retry
+import c12_gen
 import schema_gen
 import translate_schema
+from c12_gen import Gen12, et_to_dcoq, et_to_dval, doc_string
 from core import Exn, call
-from schema_gen import Gen, obj_to_coq, obj_to_val, et_to_coq, et_to_val
+from schema_gen import obj_to_coq, obj_to_val
+from translate_schema import split_name
 
 CLAIM = {
     "text": "Coq theorems (Props/C12.v) about a generic model of the SamlBase engine over table rows: for EVERY schema S and every instance tree (unbounded depth and cardinalities, hand-written nested induction) whose classes have well-formed rows, parse S (serialise S i) = norm i and serialise S (norm i) = serialise S i where norm only reorders into table order (C12_roundtrip, incl. the AttributeValue typed-text family; C12_roundtrip_schema: under wf_schema S only the object-level conditions obj_ok are asked of the instance); known children are emitted in c_child_order order (C12_sequence_order); an unknown child or attribute is kept as extension content and re-emitted (C12_foreign_preserved); and the kernel re-evaluates wf_row on the tables of ALL ~1156 classes REGENERATED from the working tree on every run: wf_schema actual_schema = true with no exception list (C12_actual_schema_wf, C12_no_bad_rows: C12_bad_rows = []), so the round trip holds for every object of every class (C12_roundtrip_actual), each class having such objects (C12_every_class_has_instances); ELEMENT_BY_TAG / ELEMENT_FROM_STRING agree. Tie: reflection translator + per-class engine correspondence (cls(), serialise, parse incl. shuffled/duplicated/foreign-extended trees) + implementation-level round-trip oracle through to_string()/from_string.",
@@ -42,10 +45,12 @@ RULE = ("every class x k generated instance trees (one with every declared attri
         "XML-special / non-ASCII text, foreign children and attributes at every level); non-trivial = instance with at least one known child or attribute "
         "(distinct by serialised content)")
 
-IMPORTS = "Model.Schema Gen.SchemaTables"
-SER_MODEL = "fun i : inst => show_result show_xtree (serialise actual_schema i)"
-PARSE_MODEL = ("fun p : N * xtree => show_result (show_inst actual_schema) "
-               "(parse x_xsi_nil x_xsi_type x_xmlns_xs actual_schema (fst p) (snd p))")
+IMPORTS = "Model.Schema Model.SchemaDoc Gen.SchemaTables"
+# documents are ElementTree elements WITH tails (Model.SchemaDoc.dtree): the serialised one must have none,
+# the parsed one may have any
+SER_MODEL = "fun i : inst => show_result show_dtree (serialise_doc actual_schema i)"
+PARSE_MODEL = ("fun p : N * dtree => show_result (show_inst actual_schema) "
+               "(parse_doc x_xsi_nil x_xsi_type x_xmlns_xs actual_schema (fst p) (snd p))")
 FRESH_MODEL = ("fun c : N => match find_row actual_schema c with "
                "Some r => show_inst actual_schema (fresh_inst x_xsi_nil r) | None => VE MODEL_DOMAIN end")
 XSI_NIL = "{http://www.w3.org/2001/XMLSchema-instance}nil"
@@ -104,44 +109,98 @@ def replay_bad_row(T, cid, m, reason, rng):
 
 
 # ---------------------------------------------------------------- structural comparison (oracle, no model)
+def _local(name):
+    return split_name(name)[1]
+
+
+def _ext_tag(e):
+    return "{%s}%s" % (e.namespace, e.tag) if e.namespace is not None else e.tag
+
+
+def _text_shape(t, has_children):
+    sh = ""
+    if t is not None and t != "" and not t.strip():
+        sh += ":ws-only"
+    elif t and t != t.strip():
+        sh += ":ws-edge"
+    if has_children:
+        sh += ":with-children"
+    return sh
+
+
+def ext_diff(a, b, depth=0):
+    """first difference between two ExtensionElement trees: (what, depth, detail) or None.  Empty text and no text
+    are the same document; everything else is compared verbatim."""
+    if _ext_tag(a) != _ext_tag(b):
+        return ("tag", depth, "%s vs %s" % (_ext_tag(a), _ext_tag(b)))
+    if list(a.attributes.items()) != list(b.attributes.items()):
+        return ("attrs", depth, "%r vs %r" % (a.attributes, b.attributes))
+    if (a.text or None) != (b.text or None):
+        return ("text" + _text_shape(a.text, bool(a.children)), depth, "%r vs %r" % (a.text, b.text))
+    if len(a.children) != len(b.children):
+        return ("children", depth, "%d vs %d children of <%s>" % (len(a.children), len(b.children), _ext_tag(a)))
+    for x, y in zip(a.children, b.children):
+        d = ext_diff(x, y, depth + 1)
+        if d:
+            return d
+    return None
+
+
 def first_difference(T, a, b, path=""):
-    """None if the two objects are structurally equal, else (class qname, member/what, detail)"""
+    """None if the two objects are structurally equal, else (class qname, member/what, detail, kind): kind names the
+    shape of content that differs (declared attribute / look-alike attribute / foreign attribute / look-alike child /
+    foreign element text, attributes, children at a depth ...)"""
     if a is None or b is None:
-        return None if a is b else ("?", "none", "%r vs %r" % (a, b))
+        return None if a is b else ("?", "none", "%r vs %r" % (a, b), "roundtrip-diff")
     if type(a) is not type(b):
-        return (T.qname[T.cid[type(a)]], "type", "%s vs %s" % (type(a).__name__, type(b).__name__))
+        return (T.qname[T.cid[type(a)]], "type", "%s vs %s" % (type(a).__name__, type(b).__name__), "roundtrip-diff")
     cid = T.cid[type(a)]
     row, qn = T.rows[cid], T.qname[cid]
-    for (_x, m, _t, _r) in row["attrs"]:
+    decl_locals = {_local(T.names[x]) for (x, _m, _t, _r) in row["attrs"]}
+    declared = {T.names[x] for (x, _m, _t, _r) in row["attrs"]}
+    kid_locals = {_local(T.names[c[0]]) for c in row["children"]}
+    for (x, m, _t, _r) in row["attrs"]:
         va, vb = getattr(a, T.names[m], None), getattr(b, T.names[m], None)
         if va != vb:
-            return (qn, T.names[m], "%r vs %r" % (va, vb))
+            look = [k for k in a.extension_attributes if _local(k) == _local(T.names[x])]
+            if look:
+                return (qn, T.names[m], "%r vs %r (the object also has the undeclared attribute %s)" % (va, vb, look[0]),
+                        "lookalike-attr:declared-member-changed")
+            return (qn, T.names[m], "%r vs %r" % (va, vb), "roundtrip-diff")
     if (a.text or None) != (b.text or None):
-        return (qn, "text", "%r vs %r" % (a.text, b.text))
+        return (qn, "text", "%r vs %r" % (a.text, b.text),
+                "elem-text" + _text_shape(a.text, any(l for _m, l in schema_gen._kids(T, a, row)) or bool(a.extension_elements)))
     ka, kb = schema_gen._kids(T, a, row), schema_gen._kids(T, b, row)
     for (m, la), (_m, lb) in zip(ka, kb):
         if len(la) != len(lb):
-            return (qn, T.names[m], "%d vs %d children" % (len(la), len(lb)))
+            return (qn, T.names[m], "%d vs %d children" % (len(la), len(lb)), "tagkey")
         for x, y in zip(la, lb):
             d = first_difference(T, x, y)
             if d:
                 return d
-    if list(a.extension_attributes.items()) != list(b.extension_attributes.items()):
-        return (qn, "extension_attributes", "%r vs %r" % (a.extension_attributes, b.extension_attributes))
-    ea = [schema_gen.ext_to_val(T, e) for e in a.extension_elements]
-    eb = [schema_gen.ext_to_val(T, e) for e in b.extension_elements]
-    if _norm_ext(ea) != _norm_ext(eb):
-        return (qn, "extension_elements", "%d vs %d" % (len(ea), len(eb)))
+    xa, xb = list(a.extension_attributes.items()), list(b.extension_attributes.items())
+    if xa != xb:
+        da, db = dict(xa), dict(xb)
+        k = next((k for k in list(da) + list(db) if da.get(k) != db.get(k)), None)
+        if k is None:
+            return (qn, "extension_attributes", "order %r vs %r" % ([p[0] for p in xa], [p[0] for p in xb]), "foreign-attr:order")
+        kind = "lookalike-attr" if (_local(k) in decl_locals and k not in declared) else "foreign-attr"
+        what = "lost" if k not in db else "invented" if k not in da else "value"
+        return (qn, k, "extension attribute %s: %r vs %r" % (k, da.get(k), db.get(k)), "%s:%s" % (kind, what))
+    ea, eb = list(a.extension_elements), list(b.extension_elements)
+    for i in range(max(len(ea), len(eb))):
+        x = ea[i] if i < len(ea) else None
+        y = eb[i] if i < len(eb) else None
+        ref = x if x is not None else y
+        kind = "lookalike-child" if ref.tag in kid_locals else "foreign-elem"
+        if x is None or y is None or _ext_tag(x) != _ext_tag(y):
+            return (qn, _ext_tag(ref), "extension element %d: %s vs %s (%d vs %d extension elements)" % (
+                i, x and _ext_tag(x), y and _ext_tag(y), len(ea), len(eb)), kind + (":lost" if len(ea) > len(eb) else ":invented" if len(ea) < len(eb) else ":tag"))
+        d = ext_diff(x, y)
+        if d:
+            return (qn, _ext_tag(x), "extension element <%s>, depth %d, %s: %s" % (_ext_tag(x), d[1], d[0], d[2]),
+                    "%s:%s:depth%d" % (kind, d[0], min(d[1], 3)))
     return None
-
-
-def _norm_ext(v):
-    # text layer: "" and None are the same document
-    if isinstance(v, list) and len(v) == 4 and isinstance(v[0], int) and isinstance(v[3], list):
-        return [v[0], v[1], v[2] or None, [_norm_ext(x) for x in v[3]]]
-    if isinstance(v, list):
-        return [_norm_ext(x) for x in v]
-    return v
 
 
 def order_ok(T, o):
@@ -199,8 +258,7 @@ def oracle_roundtrip(ctx, T, o, bad_classes):
         return "parse-none:%s" % qn, "from_string(to_string()) is None", s1
     d = first_difference(T, o, o2)
     if d:
-        kind = "tagkey" if d[1] not in ("text", "type", "extension_attributes", "extension_elements") and "children" in d[2] else "roundtrip-diff"
-        return "%s:%s.%s" % (kind, d[0], d[1]), "after from_string(to_string()): %s.%s differs: %s" % d, s1
+        return "%s:%s.%s" % (d[3], d[0], d[1]), "after from_string(to_string()): %s.%s differs: %s" % d[:3], s1
     s2 = o2.to_string()
     if s1 != s2:
         return "reserialise:%s" % qn, "second serialisation differs from the first", s1
@@ -236,9 +294,105 @@ def oracle_av_children_only(ctx, T, gen, cid):
         o2.extension_attributes = after
     d = first_difference(T, o, o2)
     if d:
-        return "roundtrip-diff:%s.%s" % (d[0], d[1]), "after from_string(to_string()): %s.%s differs: %s" % d, s1
+        return "%s:%s.%s" % (d[3], d[0], d[1]), "after from_string(to_string()): %s.%s differs: %s" % d[:3], s1
     if o2.to_string() != s1:
         return "reserialise:%s" % qn, "second serialisation differs from the first", s1
+    return None
+
+
+# ---------------------------------------------------------------- the property on DOCUMENTS (oracle, no model)
+def et_ext_diff(c, e, depth=0):
+    """document subtree c against the ExtensionElement e that captured it: verbatim except for tails"""
+    if c.tag != _ext_tag(e):
+        return ("tag", depth, "%s vs %s" % (c.tag, _ext_tag(e)))
+    if list(c.attrib.items()) != list(e.attributes.items()):
+        return ("attrs", depth, "%r vs %r" % (dict(c.attrib), e.attributes))
+    if c.text != e.text:
+        return ("text" + _text_shape(c.text, bool(len(c))), depth, "%r vs %r (tail %r)" % (c.text, e.text, c.tail))
+    if len(c) != len(e.children):
+        return ("children", depth, "%d vs %d children of <%s>" % (len(c), len(e.children), c.tag))
+    for x, y in zip(c, e.children):
+        d = et_ext_diff(x, y, depth + 1)
+        if d:
+            return d
+    return None
+
+
+def doc_check(T, av, cls, el, o):
+    """what the statement says about parsing a document, checked against the library's own tables: every attribute whose
+    full name is declared sets exactly its member, every other attribute is an extension attribute with its value
+    (look-alikes included), declared attributes that are absent are unset / at their preset, the text is the
+    element's text (never a tail), every child whose tag is not a key of c_children is an extension element equal
+    to the document subtree, in document order; every known child is parsed into its member.  Returns (key, what) or None."""
+    cid = T.cid[cls]
+    qn = T.qname[cid]
+    if o is None:
+        return "doc-parse-none:%s" % qn, "create_class_from_element_tree gave None for a <%s> document" % el.tag
+    if type(o) is not cls:
+        return "doc-type:%s" % qn, "parsed object is a %s" % type(o).__name__
+    cattr, cch = cls.c_attributes, cls.c_children
+    decl_locals = {_local(k) for k in cattr}
+    kid_locals = {_local(k) for k in cch}
+    if cid not in av:
+        for k, v in el.attrib.items():
+            if k in cattr:
+                got = getattr(o, cattr[k][0], None)
+                if got != v:
+                    look = [q for q in el.attrib if q != k and _local(q) == _local(k)]
+                    return ("doc-attr-declared%s:%s.%s" % (":with-lookalike" if look else "", qn, k),
+                            "attribute %s=%r of the document, member %s is %r%s" % (
+                                k, v, cattr[k][0], got, " (the document also has %s=%r)" % (look[0], el.attrib[look[0]]) if look else ""))
+            else:
+                got = o.extension_attributes.get(k)
+                if got != v:
+                    kind = "lookalike" if _local(k) in decl_locals else "foreign"
+                    return ("doc-%s-attr:%s.%s" % (kind, qn, k),
+                            "undeclared attribute %s=%r of the document: extension_attributes has %r" % (k, v, got))
+        extra = [k for k in o.extension_attributes if k not in el.attrib]
+        if extra:
+            return "doc-attr-invented:%s.%s" % (qn, extra[0]), "extension attribute %s is not in the document" % extra[0]
+        if [k for k in o.extension_attributes] != [k for k in el.attrib if k not in cattr]:
+            return "doc-attr-order:%s" % qn, "extension attributes are not in document order"
+        dfl = {T.names[m]: v for m, v in T.rows[cid]["defaults"]}
+        for k, (m, _t, _r) in cattr.items():
+            if k not in el.attrib and getattr(o, m, None) != dfl.get(m):
+                look = [q for q in el.attrib if _local(q) == _local(k)]
+                return ("doc-attr-absent%s:%s.%s" % (":with-lookalike" if look else "", qn, k),
+                        "the document has no attribute %s, member %s is %r%s" % (
+                            k, m, getattr(o, m, None), " (the document has %s=%r)" % (look[0], el.attrib[look[0]]) if look else ""))
+        if o.text != el.text:
+            return ("doc-text%s:%s" % (_text_shape(el.text, bool(len(el))), qn),
+                    "text of the element %r, of the object %r" % (el.text, o.text))
+    unknown = [c for c in el if c.tag not in cch]
+    xe = list(o.extension_elements)
+    for i in range(max(len(unknown), len(xe))):
+        c = unknown[i] if i < len(unknown) else None
+        e = xe[i] if i < len(xe) else None
+        tag = c.tag if c is not None else _ext_tag(e)
+        kind = "lookalike-child" if _local(tag) in kid_locals else "foreign-elem"
+        if c is None or e is None:
+            return ("doc-%s:%s:%s" % (kind, "lost" if e is None else "invented", qn),
+                    "unknown child %d <%s>: %d unknown children in the document, %d extension elements" % (i, tag, len(unknown), len(xe)))
+        d = et_ext_diff(c, e)
+        if d:
+            return ("doc-%s:%s:depth%d:%s" % (kind, d[0], min(d[1], 3), qn),
+                    "unknown child <%s>, depth %d, %s: %s" % (c.tag, d[1], d[0], d[2]))
+    for key, (member, mc) in cch.items():
+        docs = [c for c in el if c.tag == key]
+        v = getattr(o, member, None)
+        if isinstance(mc, list):
+            objs, kcls = list(v or []), mc[0]
+        else:
+            objs, kcls = ([v] if v is not None else []), mc
+            docs = docs[-1:]      # a repeated single-valued child: the last one wins (the engine as it is)
+        if len(docs) != len(objs):
+            return ("doc-known-child:%s.%s" % (qn, member),
+                    "%d <%s> children in the document, member %s holds %d" % (len(docs), key, member, len(objs)))
+        for c, k in zip(docs, objs):
+            if kcls in T.cid:
+                r = doc_check(T, av, kcls, c, k)
+                if r:
+                    return r
     return None
 
 
@@ -289,6 +443,20 @@ def mutations(ctx, T, gen, cid, tree):
     return out
 
 
+def doc_variants(ctx, T, gen, cid, tree):
+    """documents every class is parsed from on every run: pretty-printed (tails, white-space text, other attribute
+    order), with look-alike children, with look-alike attributes in front of the declared ones"""
+    r = ctx.rng
+    out = [("pretty", c12_gen.pretty(r, tree, gen))]
+    t = c12_gen.with_lookalike_child(r, T, gen, cid, tree)
+    if t is not None:
+        out.append(("lookalike-child", c12_gen.pretty(r, t, gen) if r.random() < 0.5 else t))
+    t = c12_gen.with_lookalike_attrs(r, T, gen, cid, tree)
+    if t is not None:
+        out.append(("lookalike-attr", t))
+    return out
+
+
 XSI = "{http://www.w3.org/2001/XMLSchema-instance}"
 
 
@@ -321,6 +489,20 @@ def av_trees(T, cid):
     e.text = "t"
     ET.SubElement(e, "{urn:pv:foreign}K")
     out.append(e)
+    # pretty-printed: white-space text in front of a child, tails behind the children
+    e = ET.Element(tag)
+    e.text = "\n  "
+    k = ET.SubElement(e, "{urn:oasis:names:tc:SAML:2.0:assertion}NameID")
+    k.text, k.tail = "n", "\n"
+    out.append(e)
+    e = ET.Element(tag, {XSI + "type": "xs:string"})
+    e.text = " "
+    out.append(e)
+    e = ET.Element(tag)
+    k = ET.SubElement(e, "{urn:pv:foreign}K")
+    k.text, k.tail = " k ", "tail text"
+    ET.SubElement(k, "{urn:pv:foreign}L").tail = " "
+    out.append(e)
     return out
 
 
@@ -344,17 +526,21 @@ def run(ctx):
 
     skip_members = {(c, m) for c, m, r in bad if r in (1, 2)}
     skip_classes = {c for c, m, r in bad if r == 3}
-    gen = Gen(ctx.rng, T, skip_members, skip_classes)
+    gen = Gen12(ctx.rng, T, skip_members, skip_classes)
     k = 2 if ctx.quick else 25
     ser_cases, parse_cases = [], []
     n_fail = 0
+    n_doc = 0
     for cid in range(len(T.classes)):
         qn = T.qname[cid]
         for j in range(k):
-            o = gen.obj(cid, depth=3, full=(j == 0))
+            # look-alike attributes: instance 0 carries them TOGETHER with the declared attribute (every attribute is set),
+            # instance 1 ALONE (the declared attribute unset); thorough: for every declared attribute and every kind
+            look = "together" if j == 0 else "alone" if j == 1 else ctx.rng.choice([None, "together", "alone"])
+            o = gen.obj(cid, depth=3, full=(j == 0), look=look, look_all=(not ctx.quick and j < 2))
             coq = obj_to_coq(T, o)
             tree = call(o._to_element_tree)
-            impl = et_to_val(T, tree) if not isinstance(tree, Exn) else tree
+            impl = et_to_dval(T, tree) if not isinstance(tree, Exn) else tree
             ser_cases.append(dict(id="%s#%d" % (qn, j), coq=coq, impl=impl, show=dict(cls=qn, case=j, xml=schema_gen.describe(T, o))))
             ctx.count("serialise:" + ("raises-" + tree.name if isinstance(tree, Exn) else "ok"))
             if isinstance(tree, Exn):
@@ -362,14 +548,27 @@ def run(ctx):
             else:
                 trees = [("straight", tree)]
                 if j == 0 or not ctx.quick:
+                    trees += doc_variants(ctx, T, gen, cid, tree)
                     ms = mutations(ctx, T, gen, cid, tree)
-                    trees += ms if not ctx.quick else ctx.rng.sample(ms, min(2, len(ms)))
+                    trees += ms if not ctx.quick else ctx.rng.sample(ms, min(1, len(ms)))
+                else:
+                    trees.append(("pretty", c12_gen.pretty(ctx.rng, tree, gen)))
             for kind, t in trees:
                 got = call(saml2_tophat.create_class_from_element_tree, T.classes[cid], t)
                 pimpl = got if isinstance(got, Exn) else obj_to_val(T, got)
-                parse_cases.append(dict(id="%s#%d:%s" % (qn, j, kind), coq="(%d, %s)" % (cid, et_to_coq(T, t)), impl=pimpl,
-                                        show=dict(cls=qn, case=j, kind=kind, xml=ET.tostring(t, encoding="unicode")[:400])))
+                parse_cases.append(dict(id="%s#%d:%s" % (qn, j, kind), coq="(%d, %s)" % (cid, et_to_dcoq(T, t)), impl=pimpl,
+                                        show=dict(cls=qn, case=j, kind=kind, xml=doc_string(t)[:400])))
                 ctx.count("parse:" + kind + (":raises-" + got.name if isinstance(got, Exn) else ":none" if got is None else ""))
+                # the property on the document, against the library's own tables; then the parsed object must round-trip
+                if kind != "root-mismatch" and not isinstance(got, Exn) and T.rows[cid]["tag"]:
+                    res = doc_check(T, gen.av, T.classes[cid], t, got)
+                    if res is None and got is not None and kind != "straight":
+                        r2 = oracle_roundtrip(ctx, T, got, bad_classes)
+                        res = r2[:2] if r2 else None
+                    n_doc += 1
+                    if res:
+                        n_fail += 1
+                        ctx.oracle_fail(res[0], res[1], {"unit": "doc", "class": qn, "kind": kind, "xml": doc_string(t)})
             # the property itself on the implementation
             res = oracle_roundtrip(ctx, T, o, bad_classes) if T.rows[cid]["tag"] else None   # c_tag == "": abstract base, no XML form
             if res:
@@ -379,6 +578,9 @@ def run(ctx):
                 ctx.nontriv(ET.tostring(tree))
             if cid % 150 == 0 and j == 0:
                 ctx.sample(dict(cls=qn, xml=schema_gen.describe(T, o, 300)))
+    ctx.count("oracle:documents-checked", n_doc)
+    for key in sorted(gen.stats):
+        ctx.count("gen:" + key, gen.stats[key])
     # cls() of every class is the model's fresh_inst (C12_every_class_has_instances speaks about it)
     fresh_cases = []
     for cid in range(len(T.classes)):
@@ -398,22 +600,22 @@ def run(ctx):
         for t in av_trees(T, cid):
             got = call(saml2_tophat.create_class_from_element_tree, T.classes[cid], t)
             pimpl = got if isinstance(got, Exn) else obj_to_val(T, got)
-            parse_cases.append(dict(id="%s:av" % T.qname[cid], coq="(%d, %s)" % (cid, et_to_coq(T, t)), impl=pimpl,
+            parse_cases.append(dict(id="%s:av" % T.qname[cid], coq="(%d, %s)" % (cid, et_to_dcoq(T, t)), impl=pimpl,
                                     show=dict(cls=T.qname[cid], kind="av", xml=ET.tostring(t, encoding="unicode"))))
             ctx.count("parse:av" + (":raises-" + got.name if isinstance(got, Exn) else ""))
         for kind in ["str", "nil", "int", "bool", "b64", "xsd", "ext"]:
             for _ in range(2 if ctx.quick else 10):
                 o = gen.av_obj(cid, kind)
                 tree = o._to_element_tree()
-                ser_cases.append(dict(id="%s:av:%s" % (T.qname[cid], kind), coq=obj_to_coq(T, o), impl=et_to_val(T, tree),
+                ser_cases.append(dict(id="%s:av:%s" % (T.qname[cid], kind), coq=obj_to_coq(T, o), impl=et_to_dval(T, tree),
                                       show=dict(cls=T.qname[cid], kind=kind, xml=schema_gen.describe(T, o))))
                 got = call(saml2_tophat.create_class_from_element_tree, T.classes[cid], tree)
-                parse_cases.append(dict(id="%s:avobj:%s" % (T.qname[cid], kind), coq="(%d, %s)" % (cid, et_to_coq(T, tree)),
+                parse_cases.append(dict(id="%s:avobj:%s" % (T.qname[cid], kind), coq="(%d, %s)" % (cid, et_to_dcoq(T, tree)),
                                         impl=got if isinstance(got, Exn) else obj_to_val(T, got), show=dict(cls=T.qname[cid], kind=kind)))
     ctx.extra["names_interned"] = {"tables": n_gen_names, "with_generated_foreign_names": len(T.names)}
     corr_retry.correspond(ctx, "fresh", IMPORTS, FRESH_MODEL, "N", fresh_cases, shard=400, timeout=900)
     corr_retry.correspond(ctx, "serialise", IMPORTS, SER_MODEL, "inst", ser_cases, shard=60, timeout=900)
-    corr_retry.correspond(ctx, "parse", IMPORTS, PARSE_MODEL, "(N * xtree)", parse_cases, shard=60, timeout=900)
+    corr_retry.correspond(ctx, "parse", IMPORTS, PARSE_MODEL, "(N * dtree)", parse_cases, shard=60, timeout=900)
     ctx.count("oracle:roundtrip-failures", n_fail)
     ctx.notes.append("classes: %d; instances per class: %d; kernel-computed bad rows: %d" % (len(T.classes), k, len(bad)))
 
